@@ -119,7 +119,7 @@ class _Strategies:
             st.sampled_from(special),
         )
         self.tok_item = self.token.map(lambda fr: ['tok', fr])
-        self.bad_tok_item = st.tuples(st.lists(frag, min_size=0, max_size=2), st.sampled_from(['us', 'uh', 'uh']),
+        self.bad_tok_item = st.tuples(st.lists(frag, min_size=0, max_size=2), st.sampled_from(['uh', 'us']),
                                       _text(naked + [' ', '\n', ' '], 0, 4)).map(_unterminated)
         self.eol_item = _text(eol, 0, 6).map(lambda t: ['eol', t])
         self.here_item = st.sampled_from(MARKERS).flatmap(
@@ -198,7 +198,8 @@ def cli_case(draw, tier='quick', uws=False):
     tail = draw(st.sampled_from(S.tail))
     htail = draw(st.sampled_from(S.htail))
     if host in STRING_HOSTS:
-        k = draw(st.sampled_from([0] + [1, 2, 3] + [4, 5, 6, 7] + list(range(8, 20))))
+        # (the first element of a sampled_from is drawn more often than the others: it is an ordinary token)
+        k = draw(st.sampled_from(list(range(8, 20)) + [1, 2, 3] + [4, 5, 6, 7] + [0]))
         if host == 'fname':
             k = max(k, 8) if k else 0
         item = draw(S.bad_tok_item if k == 0 else S.eol_item if k <= 3 else S.here_item if k <= 7 else S.tok_item)
@@ -210,16 +211,16 @@ def cli_case(draw, tier='quick', uws=False):
         items = [draw(S.tok_item) for _ in range(n)]
         if host in RICH_LIST_HOSTS:
             k = draw(st.sampled_from(list(range(10))))
-            if k == 0:
+            if k == 9:
                 items.append(draw(S.eol_item))
-            elif k == 1 and host != 'act':
+            elif k == 8:
                 items.append(draw(S.here_item))
-        if draw(st.sampled_from(list(range(30)))) == 0:
+        if draw(st.sampled_from(list(range(30)))) == 29:
             items.append(draw(S.bad_tok_item))
         seps = [draw(st.sampled_from(S.seps_1line if host == 'act' else S.seps))
                 for _ in range(max(0, len(items) - 1))]
         nxt = 'paren' if host == 'argspar' else draw(st.sampled_from(_NEXT_LIST))
-        if host == 'argspar' and draw(st.sampled_from(list(range(5)))) == 0:
+        if host == 'argspar' and draw(st.sampled_from(list(range(5)))) == 4:
             nxt = 'paren_nl'
         if host == 'act':
             nxt = 'eol'
@@ -392,8 +393,12 @@ def render(case):
             suffix = same_line
             if text_source and nxt == 'option':
                 suffix = ''  # a transformation after a here document is not generated
-            norm_items.append(['here', it[1], it[2], it[3]])
-            parts.append(here_text(it[1], it[2], it[3], suffix + case.get('htail', '')))
+            lines = it[2]
+            if host == 'act':
+                # [act]: empty and comment lines are the actor's, `[` starts a phase header, `\\` an escape sequence
+                lines = [l for l in lines if l.strip() and l.strip()[0] not in '#[\\']
+            norm_items.append(['here', it[1], lines, it[3]])
+            parts.append(here_text(it[1], lines, it[3], suffix + case.get('htail', '')))
             same_line = ''
             tail = ''  # the end marker line is exactly the marker
     value = ''.join(parts)
